@@ -264,29 +264,29 @@ def L_INH(cs=None):
         step('viaVar', 'or', reaches=[to(var('vv'), 'tO')]),
         step('toG1', 'or', reaches=[to(collect(sub('G1', collect(fld('os'), fld('ps'))), fld('os')), 'tO')]),
     ])
-    A = asset('A', sup='P', steps=s_decl(1) + [
+    A = asset('Am', sup='P', steps=s_decl(1) + [
         step('dA', 'defense', reaches=[astep('tA')], ttc=DISABLED),
         step('viaVar', 'or', reaches=[to(fld('os'), 'back')], overrides=False),
         step('timed', 'and', reaches=[astep('tA')], ttc=EXPO, tags=['x', 'y']),
     ])
-    G1 = asset('G1', sup='A', steps=s_decl(2) + [
+    G1 = asset('G1', sup='Am', steps=s_decl(2) + [
         step('dG', 'defense', reaches=[astep('tG1')], ttc=None),
         step('ex', 'exist', requires=[fld('os')], reaches=[astep('tG1')]),
         step('nex', 'notExist', requires=[fld('os1')], reaches=[astep('tG1')]),
         step('dP', 'defense', reaches=[astep('tG1')], ttc=ENABLED, overrides=False),
     ])
-    G2 = asset('G2', sup='A', steps=s_decl(3))
+    G2 = asset('G2', sup='Am', steps=s_decl(3))
     O = asset('O', steps=[step('tO', 'or'), step('back', 'or', reaches=[to(fld('ps'), 'tP')]),
                           step('exO', 'exist', requires=[sub('G1', fld('ps'))])], category='C2')
     assocs = [assoc('L', 'P', 'ps', MANY, 'O', 'os', MANY),
               assoc('L1', 'P', 'ps1', (0, 1), 'O', 'os1', (1, 1)),
-              assoc('L2', 'A', 'as2', (1, None), 'O', 'os2', (0, 2)),
+              assoc('L2', 'Am', 'as2', (1, None), 'O', 'os2', (0, 2)),
               assoc('Dup', 'G1', 'dg1', MANY, 'O', 'do1', MANY),
               assoc('Dup', 'G2', 'dg2', MANY, 'O', 'do2', MANY)]
     return spec([P, A, G1, G2, O], assocs, lang_id='verif.linh')
 
 
-INH_SUP = {'P': None, 'A': 'P', 'G1': 'A', 'G2': 'A', 'O': None}
+INH_SUP = {'P': None, 'Am': 'P', 'G1': 'Am', 'G2': 'Am', 'O': None}
 
 
 def ref_fold(spec_dict, tname):
@@ -321,3 +321,40 @@ def rel_for(spec_dict, types):
     sup = {n: a['superAsset'] for n, a in by.items()}
     variables = {n: {v['name']: v['stepExpression'] for v in a['variables']} for n, a in by.items()}
     return Rel(len(types), list(types), sup, variables)
+
+
+# ------------------------------------------------------------------ L_UNI / F_ILL
+def L_UNI():
+    """S has fields x1 -> B1, x2 -> B2, xb -> B; B1, B2 extend B; set operators over sibling types."""
+    B = asset('B', steps=[step('t', 'or')], variables=[])
+    B1 = asset('B1', sup='B', steps=[step('only1', 'or')])
+    B2 = asset('B2', sup='B', steps=[])
+    S = asset('S', steps=[
+        step('eu', 'or', reaches=[to(union(fld('x1'), fld('x2')), 't')]),
+        step('eu2', 'or', reaches=[to(union(fld('x2'), fld('x1')), 't')]),
+        step('ei', 'or', reaches=[to(inter(fld('xb'), fld('x1')), 't')]),
+        step('ed', 'or', reaches=[to(diff(fld('xb'), fld('x2')), 't')]),
+        step('eb', 'or', reaches=[to(union(fld('x1'), fld('xb')), 't')]),
+        step('es', 'or', reaches=[to(sub('B1', fld('xb')), 'only1')]),
+    ])
+    return spec([B, B1, B2, S], [assoc('A1', 'S', 's1', MANY, 'B1', 'x1', MANY), assoc('A2', 'S', 's2', MANY, 'B2', 'x2', MANY),
+                                  assoc('AB', 'S', 'sb', MANY, 'B', 'xb', MANY)], lang_id='verif.luni')
+
+
+ILL = ['unknown super asset', 'unknown association end (left)', 'unknown association end (right)',
+       'step target missing on the static type', 'unknown field in a step expression']
+
+
+def F_ILL(k):
+    sp = L_INH()
+    if k == 0:
+        sp['assets'][2]['superAsset'] = 'Nope'
+    elif k == 1:
+        sp['associations'][0]['leftAsset'] = 'Nope'
+    elif k == 2:
+        sp['associations'][1]['rightAsset'] = 'Nope'
+    elif k == 3:
+        sp['assets'][4]['attackSteps'][1]['reaches']['stepExpressions'] = [to(fld('ps'), 'nosuchstep')]
+    else:
+        sp['assets'][4]['attackSteps'][1]['reaches']['stepExpressions'] = [to(fld('nofield'), 'tP')]
+    return sp
